@@ -187,3 +187,53 @@ Arguments DShort {U}.
 Arguments DNoUsers {U}.
 Arguments DNoAuth {U}.
 Arguments DOutOfObs {U}.
+
+(* ---------------- UDP: the existing-session shortcut (underlay_packet.go) ----------------
+
+   PacketUnderlay.readOneSegment first offers every datagram to the sessions of the underlay
+   (tryDecryptExistingSession): a session is asked only if its peer address equals the
+   datagram's source address — IP AND port — and it owns the datagram if its cipher opens
+   the metadata.  Only when no session owns it is the registry consulted (Discover).  The
+   segment of a NEW session that is owned this way (a client multiplexing several sessions
+   over one socket) takes the user and the policy of the owning session: neither the hint
+   nor the registry is looked at.
+
+   A session is (peer ip, peer port, attributed user id).  [opens s] = "the cipher of session
+   s opens this datagram": an ARBITRARY boolean function (with shared credentials the ciphers
+   of other users' sessions open it too).  [peer] is the address test; the code's is
+   [same_peer].  sync.Map.Range visits the sessions in no particular order; [find] fixes one
+   order, the theorems show the order is irrelevant. *)
+
+Record usession := { us_ip : N; us_port : N; us_user : N }.
+
+Definition same_peer (ip port : N) (s : usession) : bool := (us_ip s =? ip) && (us_port s =? port).
+
+Definition shortcut (peer : N -> N -> usession -> bool) (opens : usession -> bool)
+           (ss : list usession) (ip port : N) : option usession :=
+  find (fun s => peer ip port s && opens s) ss.
+
+(* the user a first segment from (ip, port) is attributed to; [disc] is what discovery
+   (try_state on the current generation) answers for it *)
+Definition udp_attribute (peer : N -> N -> usession -> bool) (opens : usession -> bool)
+           (ss : list usession) (ip port : N) (disc : option N) : option N :=
+  match shortcut peer opens ss ip port with
+  | Some s => Some (us_user s)
+  | None => disc
+  end.
+
+Record uevent := { ev_ip : N; ev_port : N; ev_disc : option N; ev_opens : usession -> bool }.
+
+(* first segments of new sessions, one after the other; an accepted one creates a session *)
+Fixpoint udp_run (peer : N -> N -> usession -> bool) (ss : list usession) (evs : list uevent)
+  : list usession * list (option N) :=
+  match evs with
+  | [] => (ss, [])
+  | e :: rest =>
+    let a := udp_attribute peer (ev_opens e) ss (ev_ip e) (ev_port e) (ev_disc e) in
+    let ss' := match a with
+               | Some u => ss ++ [{| us_ip := ev_ip e; us_port := ev_port e; us_user := u |}]
+               | None => ss
+               end in
+    let '(fin, outs) := udp_run peer ss' rest in
+    (fin, a :: outs)
+  end.
